@@ -214,10 +214,10 @@ def body_hist(case, ctx):
 
 
 def body_concat(case, ctx):
-    parts = [build(case["dt"], p["n"], p["c"], p["v"]) for p in case["parts"]]
+    parts = [build(p.get("dt", case["dt"]), p["n"], p["c"], p["v"]) for p in case["parts"]]
     xs = [rl.encode(p) for p in parts]
     ds = [rl.decode(x) for x in xs]
-    ctx.label("k:%d" % len(parts), "dt:" + case["dt"])
+    ctx.label("k:%d" % len(parts), "dt:" + case["dt"], "mixed-dtypes" if len({str(p.dtype) for p in parts}) > 1 else "one-dtype")
     ctx.nt(len(parts) >= 2 and any(rl.n_runs(d) >= 2 for d in ds))
     got = lib(lambda: np.concatenate(xs))
     rl.expect_rl(got, np.concatenate(ds), "concatenate", strict=False)
@@ -397,12 +397,14 @@ def hist_case(draw, tier):
 @st.composite
 def concat_case(draw, tier):
     dt = draw(st.sampled_from(rl.RL_DT))
-    k = draw(st.integers(1, 4))
+    k = draw(st.sampled_from([1, 2, 3, 3, 4, 5]))
+    mixed = draw(st.booleans())       # every operand its own element type: numpy promotes over all operands at once
     parts = []
     for _ in range(k):
         n = draw(st.integers(1, 12))
-        c, v = draw(operand(tier, dt, n))
-        parts.append({"n": n, "c": c, "v": v})
+        pdt = draw(st.sampled_from(rl.RL_DT)) if mixed else dt
+        c, v = draw(operand(tier, pdt, n, specials=not mixed, mag=100 if mixed else None))
+        parts.append({"n": n, "c": c, "v": v, "dt": pdt})
     return {"dt": dt, "parts": parts}
 
 
@@ -422,6 +424,6 @@ SUBCHECKS = [
              doc="sum / any / all / mean (np.<f> and method), max() equal numpy on the decoded array"),
     SubCheck("histogram", body_hist, hist_case, quick=2000, thorough=150000, shards_quick=1,
              doc="np.histogram with int bins (optional range) and explicit edges on finite values"),
-    SubCheck("concatenate", body_concat, concat_case, quick=2000, thorough=150000, shards_quick=1,
-             doc="np.concatenate of 1-4 encoded arrays decodes to the concatenation"),
+    SubCheck("concatenate", body_concat, concat_case, quick=8000, thorough=400000, shards_quick=4,
+             doc="np.concatenate of 1-5 encoded arrays (one element type, or every operand its own) decodes to the concatenation, dtype as numpy's"),
 ]
